@@ -55,7 +55,7 @@ type Prover struct {
 	// ImplsOf lists every implementation of an interface method call (module interfaces only).
 	ImplsOf  func(call *ssa.Call) []*ssa.Function
 	baseMemo map[*ssa.BasicBlock][]Fact // facts independent of phi invariants / extras
-	callMemo    map[*ssa.Call][]Fact
+	callMemo map[*ssa.Call][]Fact
 }
 
 // FieldInvariant: for struct type T: a linear relation among its fields that holds between method
@@ -665,6 +665,8 @@ var LibPost = map[string][]string{
 	"(encoding/base64.Encoding).EncodedLen":             {"r0"},
 	"(*encoding/base64.Encoding).EncodedLen":            {"r0"},
 	"github.com/klauspost/compress/s2.MaxEncodedLen":    {},
+	// decodedLen returns int(v) for 0 <= v <= 0xffffffff (and 0 with an error)
+	"github.com/klauspost/compress/s2.DecodedLen": {"r0"},
 	// cmsg sizes: align(sizeof(Cmsghdr)) is 12..16 depending on the architecture
 	"golang.org/x/sys/unix.CmsgSpace": {"r0 - p0 - 12"},
 	"golang.org/x/sys/unix.CmsgLen":   {"r0 - p0 - 12", "p0 + 16 - r0"},
